@@ -2,10 +2,12 @@
 from checks import decoder_units as D
 from checks.decoder_common import run_property
 
+SEED = [0]
+
 
 def jobs(tier):
     m = ("strict",)
-    return D.g_pump(("strict", "warn")) + D.g_region(m, tier) + D.g_leaf(m, deep=2, types=["UINT8", "UINT16", "UINT32", "UINT64", "INT8", "INT16", "INT32", "INT64", "TPM_ST", "TPM_CC", "TPMI_YES_NO"])
+    return D.g_pump(("strict", "warn")) + D.g_region(m, tier) + D.g_leaf(m, deep=2, types=["UINT8", "UINT16", "UINT32", "UINT64", "INT8", "INT16", "INT32", "INT64", "TPM_ST", "TPM_CC", "TPMI_YES_NO"]) + D.g_crosscheck(tier, SEED[0], only_frames=True)
 
 
 def keep(name, ob):
@@ -13,6 +15,7 @@ def keep(name, ob):
 
 
 def run(tier, seed, only=None):
+    SEED[0] = seed
     from checks.replay_decoder import replayer
     return run_property("C13", tier, seed, jobs(tier), keep,
                         "pump Fail cases: on a byte send bytes_remaining is the untouched source, on an event pull it is the outstanding look-ahead byte (iff there is one) followed by the unread rest; region contract: an overrun consumes exactly the rest of the region before raising; the leaf consumes nothing for the offending field after the look-ahead check; together input = emitted fields + consumed offending bytes + bytes_remaining",
